@@ -92,7 +92,7 @@ ExportCases ==
         PrintT(<<"REPLAY", ToJson([id |-> <<"nest", NestKinds[k], Depths[d]>>, q |-> NestQ(NestKinds[k], Depths[d]),
                                    doc |-> [nest |-> Depths[d], kind |-> IF k % 2 = 0 THEN "arr" ELSE "obj"], verdict |-> "valid"])>>)
   /\ \A k \in 1..Len(ExtremeQ) :
-        PrintT(<<"REPLAY", ToJson([id |-> <<"extreme", "", k>>, q |-> ExtremeQ[k], doc |-> [nest |-> (k % 4), kind |-> "arr"], verdict |-> Verdict(ExtremeQ[k])])>>)
+        PrintT(<<"REPLAY", ToJson([id |-> <<"extreme", "", k>>, kind |-> "extreme", q |-> ExtremeQ[k], doc |-> [nest |-> (k % 4), kind |-> "arr"], verdict |-> Verdict(ExtremeQ[k])])>>)
   /\ \A d \in 1..Len(Depths) :      \* shallow queries over deep documents
         /\ PrintT(<<"REPLAY", ToJson([id |-> <<"deepdoc", "desc", Depths[d]>>, q |-> <<36, 46, 46, 42>>, doc |-> [nest |-> Depths[d], kind |-> "arr"], verdict |-> "valid"])>>)
         /\ Depths[d] > 512 \/ PrintT(<<"REPLAY", ToJson([id |-> <<"deepdoc", "descfilter", Depths[d]>>, q |-> <<36, 46, 46, 91, 63, 64, 46, 46, 97, 93>>, doc |-> [nest |-> Depths[d], kind |-> "obj"], verdict |-> "valid"])>>)
